@@ -19,6 +19,9 @@ class Norm:
                 break
             s = s2
         s = self.simplify_filter(s)
+        if not s.startswith('read(') and 'read(' in s:
+            # an integer read from the stream inside a compound bound: location-free for the alias table
+            s = re.sub(r'read\([^)]*\)', 'READ', s)
         return self.dom_equiv.get(s, s)
 
     def simplify_filter(self, s):
@@ -42,10 +45,10 @@ class Norm:
         s = k
         # counts that alias a collection length
         for a, b in self.count_alias.items():
-            s = s.replace(a, b)
+            s = re.sub(re.escape(a) + r'(?![\w])', b, s)
         for a, b in self.dom_equiv.items():
             if a in s and a != s:
-                s = s.replace(a, b)
+                s = re.sub(re.escape(a) + r'(?![\w])', b, s)
         # membership in a filtered index set is the filter condition itself
         m = re.search(r'filter\((.*),coll<filter\((.*)>\.contains\(index<', s)
         s = re.sub(r'^!!', '', s)
@@ -198,16 +201,63 @@ def split_top(s):
     return out
 
 
+def enum_keys(t, out=None):
+    out = set() if out is None else out
+    if t[0] == 'alt':
+        if t[1].startswith('match ') and '{' not in t[1]:
+            out.add((t[1], len(t[2])))
+        for b in t[2]:
+            enum_keys(b, out)
+    elif t[0] == 'seq':
+        for x in t[1]:
+            enum_keys(x, out)
+    elif t[0] == 'loop':
+        enum_keys(t[2], out)
+    return out
+
+
+def specialise_enum(t, key, i):
+    """the schedule under the assumption that the enum-keyed alternative `key` takes its i-th variant everywhere"""
+    if t[0] == 'alt':
+        if t[1] == key and i < len(t[2]):
+            return specialise_enum(t[2][i], key, i)
+        bs = [specialise_enum(b, key, i) for b in t[2]]
+        if all(is_eps(b) for b in bs):
+            return EPS
+        if all(b == bs[0] for b in bs):
+            return bs[0]
+        return ('alt', t[1], bs)
+    if t[0] == 'seq':
+        return seq([specialise_enum(x, key, i) for x in t[1]])
+    if t[0] == 'loop':
+        b = specialise_enum(t[2], key, i)
+        return ('loop', t[1], b) if not is_eps(b) else EPS
+    return t
+
+
 def length_prefix(t):
     """Rename length-prefixed domains: an integer operation carrying ('len', D) names D as LP#i (i = order of appearance); every
     later loop over D is renamed.  Makes `write len; for x in xs {write x}` and `n = read; for _ in 0..n {read}` comparable."""
     names = {}
     counter = [-1]
+    used = set()
+
+    def doms(t):
+        if t[0] == 'loop':
+            used.add(t[1])
+            doms(t[2])
+        elif t[0] == 'seq':
+            for x in t[1]:
+                doms(x)
+        elif t[0] == 'alt':
+            for b in t[2]:
+                doms(b)
+    doms(t)
 
     def go(t):
         k = t[0]
         if k == 'op':
-            if len(t) > 4 and t[4] is not None:
+            if len(t) > 4 and t[4] is not None and t[4][1] in used:
                 d = t[4][1]
                 # every length-carrying operation opens a new length-prefixed section (two instances of one ADT share field names)
                 counter[0] += 1
